@@ -229,3 +229,70 @@ def gen_is_atom(g):
     ok = sum(bool(f(code)) for _, code in A_PRIMARY)
     g.cover("some-primary-is-recognised", [z3.BoolVal(ok > 0)], fn.lineno)
     g.assumptions.add("Python's expression grammar: only atoms, calls, attribute references and subscriptions bind tighter than every operator (one sample per other kind)")
+
+
+# ----------------------------------------------------------------------------- _do_rewrite: the splice expressions (native string theory)
+def gen_splice(g):
+    """Every candidate text _do_rewrite builds is  source[:a] + <middle> + source[b:]  for the edited range [a, b).  The expressions are taken
+    from the real AST and translated to z3's sequence theory (slices -> SubString with Python's clamping made explicit by the hypotheses
+    0 <= a <= b <= len(source)); obligations: the candidate starts with source[:a], ends with source[b:], and has length
+    a + len(middle) + len(source) - b.  This is the arithmetic behind `lines not touched by a match are unchanged` (before the whitespace
+    minimiser, which is bounded only)."""
+    from pyvc.unit import find_def, segment_sha
+    fn, text = find_def("processing", "_do_rewrite")
+    g.sha = segment_sha(text, fn)
+    g.lines = [fn.lineno, fn.end_lineno]
+    S = z3.String("source")
+    a, b = z3.Ints("a b")
+    hyp = [0 <= a, a <= b, b <= z3.Length(S)]
+    mids = {}
+
+    def is_src_prefix(e):       # source[:X]
+        return isinstance(e, ast.Subscript) and ast.unparse(e.value) == "source" and isinstance(e.slice, ast.Slice) and e.slice.lower is None and e.slice.upper is not None and e.slice.step is None
+
+    def is_src_suffix(e):       # source[X:]
+        return isinstance(e, ast.Subscript) and ast.unparse(e.value) == "source" and isinstance(e.slice, ast.Slice) and e.slice.lower is not None and e.slice.upper is None and e.slice.step is None
+
+    def flat(e):
+        if isinstance(e, ast.BinOp) and isinstance(e.op, ast.Add):
+            return flat(e.left) + flat(e.right)
+        return [e]
+    n = 0
+    for asg in [x for x in ast.walk(fn) if isinstance(x, ast.Assign)]:
+        parts = flat(asg.value)
+        if len(parts) < 3 or not is_src_prefix(parts[0]) or not is_src_suffix(parts[-1]):
+            continue
+        def idx(e):
+            """index expression over the start (a) and the end (b) of the edited range"""
+            t_ = ast.unparse(e)
+            if t_ in ("old.start", "start"):
+                return a
+            if t_ in ("old.end", "end"):
+                return b
+            if isinstance(e, ast.BinOp) and isinstance(e.op, (ast.Add, ast.Sub)) and isinstance(e.right, ast.Constant) and isinstance(e.right.value, int):
+                return idx(e.left) + e.right.value if isinstance(e.op, ast.Add) else idx(e.left) - e.right.value
+            raise NotGenerated(f"splice index `{t_}` is not the start / end of the edited range")
+        label = f"{ast.unparse(asg.targets[0])}@{n}"
+        n += 1
+        lo_i, hi_i = idx(parts[0].slice.upper), idx(parts[-1].slice.lower)
+        middle = []
+        for p_ in parts[1:-1]:
+            if isinstance(p_, ast.Constant) and isinstance(p_.value, str):
+                middle.append(z3.StringVal(p_.value))
+            else:
+                key = ast.unparse(p_)
+                middle.append(mids.setdefault(key, z3.String(f"mid_{len(mids)}")))
+        M = z3.Concat(*middle) if len(middle) > 1 else middle[0]
+        # Python slice semantics with clamping for the indices actually written in the code
+        clamp = lambda i_: z3.If(i_ < 0, z3.If(i_ + z3.Length(S) < 0, 0, i_ + z3.Length(S)), z3.If(i_ > z3.Length(S), z3.Length(S), i_))      # noqa: E731
+        lo_c, hi_c = clamp(lo_i), clamp(hi_i)
+        E = z3.Concat(z3.SubString(S, 0, lo_c), M, z3.SubString(S, hi_c, z3.Length(S) - hi_c))
+        g.oblige("splice", f"{label}:keeps-the-text-before-the-range", hyp, z3.SubString(E, 0, a) == z3.SubString(S, 0, a), asg.lineno)
+        g.oblige("splice", f"{label}:keeps-the-text-after-the-range", hyp, z3.SubString(E, z3.Length(E) - (z3.Length(S) - b), z3.Length(S) - b) == z3.SubString(S, b, z3.Length(S) - b), asg.lineno)
+        g.oblige("splice", f"{label}:length", hyp, z3.Length(E) == a + z3.Length(M) + z3.Length(S) - b, asg.lineno)
+    for o_ in g.obligs:
+        if not isinstance(o_, dict) and o_.kind == "splice":
+            o_.z3_timeout_ms = 2000
+    if n < 4:
+        raise NotGenerated(f"only {n} splice expressions of the form source[:a] + ... + source[b:] found in _do_rewrite")
+    g.assumptions.add("Python slices source[:a], source[b:] equal SubString under 0 <= a <= b <= len(source) (the range comes from get_charnos, C13); z3 sequence theory")
